@@ -5,6 +5,7 @@ import CasbinVerif.Spec.Effect
   Driver ops for the effector (C02):
     merge  <kind> <idx> <len> <cells>   -> "<eft> <explainIdx>"            (model only)
     enfvec <kind> <cells>               -> "<decision> <explainIdx>"  spec: "<decision>"
+    elsevec <kind> <0|1>                -> "<decision>" of the empty-policy branch
   cells: two characters per slot, M|U (matched/unmatched) then a|d|i (allow/deny/indeterminate);
   `-` is the empty vector.
 -/
@@ -55,6 +56,13 @@ def effectorOp : List String → Option (String × String × Bool)
       let d := effectSpec k cs
       let ok := (cs.zipIdx.filter (fun (c, _) => c.matched && c.eft == (if d then Eft.allow else Eft.deny))).map (fun (_, i) => toString i)
       pure (s!"{showBool (decision r)} {showIdx r.2}", s!"{showBool d} \{{",".intercalate ("-1" :: ok)}}", !cs.isEmpty)
+  | ["elsevec", k, b] => do
+      -- the branch of enforce() taken on an empty policy (or a matcher that ignores the policy): one
+      -- evaluation against the all-empty rule, `b` = what the matcher answered
+      let k ← parseKind k
+      -- specification for a request that does not satisfy the matcher: the four sentences on no rule at
+      -- all; for one that does, the empty-policy shortcut is finding D24 (no specification)
+      pure (showBool (decision (elseBranch k (b == "1"))), (if b == "1" then "-" else showBool (effectSpec k [])), b != "1")
   | _ => none
 
 end Casbin.Driver
